@@ -1,6 +1,7 @@
 // main.cc — isal-sim: seeded plan generation, execution, determinism check, violation gating,
 // shrinking, replay.
 #include "sim.h"
+#include "cpu.h"
 #include <time.h>
 #include <unistd.h>
 #include <sys/mman.h>
@@ -44,7 +45,30 @@ static RunResult execute(const Json &plan, std::vector<std::string> *log = nullp
         }
         g_arena.run_begin((size_t) ((uint64_t) plan.at("mem").geti("skip")));
         sim_run_begin();
+        // swarm CPU: any profile's traffic can be routed through the implementations a lesser CPU would select
+        // (cold start, real resolvers under simulated CPUID/XGETBV, a short trapped prefix of each selected kernel)
+        const Json *cj = plan.find("cpu");
+        bool swarm_cpu = cj && cj->t == Json::OBJ && strcmp(p->name, "cpu") && strcmp(p->name, "sched") && cpu_load_classes();
+        CpuWin win;
+        if (swarm_cpu) {
+                win.cpu = cpu_from_plan(*cj);
+                win.max_steps = 60 + (uint32_t) ((uint64_t) cj->geti("steps") % 200);
+                cpu_cold_start();
+                cpu_window_open(&win);
+                COUNT("cpu.swarm_runs");
+        }
         p->exec(plan, rr, h);
+        if (swarm_cpu) {
+                cpu_window_close(&win);
+                cpu_cold_start();
+                COUNTN("cpu.trapped_steps", win.total_steps);
+                COUNTN("cpu.resolver_windows", win.windows);
+                h.events += win.total_steps;
+                if (win.viol && rr.oracle.find("C16") != 0) {
+                        rr.oracle.clear();
+                        rr.fail("C16.ud", strf("profile %s under simulated CPU {l1.ecx %08x l7.ebx %08x l7.ecx %08x xcr0 %x}: an instruction needing %s was executed in code selected by %s", p->name, win.cpu.l1_ecx, win.cpu.l7_ebx, win.cpu.l7_ecx, win.cpu.xcr0, need_str(win.viol_need).c_str(), win.last_resolver ? win.last_resolver->name.c_str() : "?"));
+                }
+        }
         sim_run_end();
         g_arena.run_end();
         rr.hash = mix64(h.h, hash_str(rr.oracle.c_str()));
